@@ -2264,6 +2264,12 @@ fn verify_ecdsa(public_key: &[u8], message: &[u8], signature: &[u8]) -> Result<V
 
     let secp = Secp256k1::verification_only();
 
+    // Only the 33-byte compressed form is a verification key for this builtin;
+    // `from_slice` would also take the 65-byte uncompressed serialisation.
+    if public_key.len() != secp256k1::constants::PUBLIC_KEY_SIZE {
+        return Err(secp256k1::Error::InvalidPublicKey.into());
+    }
+
     let public_key = PublicKey::from_slice(public_key)?;
 
     let signature = Signature::from_compact(signature)?;
